@@ -72,7 +72,7 @@ TEXT = {
     'C13': dict(level='Lean checker on every Louvain output: non-empty list of levels, each a partition into non-empty communities, each level '
                 'coarsens the previous, exact (rational) modularity on the input graph non-decreasing and first level >= singletons, '
                 'louvain_communities = last level; termination observed under a watchdog; theorems on the gain formula (gain = m*deltaQ); a step-level exact model of the implementation compared level by level.',
-                note='Partial: termination is proved of the exact-arithmetic model (bound n^n sweeps), for the f64 implementation it is observed under a watchdog; monotonicity of modularity is observed through the checker; the model comparison is skipped when two '
+                note='Partial: termination and monotonicity are proved of the exact-arithmetic model (bound n^n sweeps); for the f64 implementation they are observed (watchdog, checker) - f64 ties can cycle (finding F23, repaired by a sweep cap equal to the model fuel); the model comparison is skipped when two '
                      'candidate gains are within 1e-9 (f64 rounding decides). The shuffle permutations are inputs computed by the harness with the same rand call.',
                 technique='Lean 4 proof (gain identity, partition invariants, termination of the model, checker) + formula translator + spec check on implementation output + differential correspondence', ref='DESIGN.md 5 C13'),
     'C14': dict(level='Event-level model of the GraphML writer and reader; theorem: readEvents (writeEvents g) rebuilds g; the real document is '
@@ -82,7 +82,7 @@ TEXT = {
                 technique='Lean 4 proof (event-level round trip) + differential correspondence', ref='DESIGN.md 5 C14'),
     'C16': dict(level='complete_graph model theorem; karate table regenerated from the source and decided by the kernel; G(n,p) model over the '
                 'skip sequence with structure theorems; structure checker on every generated graph, statistical mean-edge-count test.',
-                note='Partial: the undirected distribution is proved from the assumption that the skips are independent geometric(p) (ChaCha20, ln and the uniform->geometric transformation are library code, tested statistically); the directed law (diagonal redirect) is tested statistically only.',
+                note='Partial: the undirected and the directed output laws are proved from the assumption that the skips are independent geometric(p); that assumption (ChaCha20, ln and the uniform->geometric transformation: library code) is tested statistically.',
                 technique='Lean 4 proof + translator (karate) + differential correspondence + statistical test', ref='DESIGN.md 5 C16'),
     'C17': dict(level='Repeated calls in one process, inside rayon pools of 1 and 4 threads and in a second process must agree exactly (Louvain on '
                 'tie-rich graphs, G(n,p)); theorem that the deterministic tie-break (argmax over a sorted candidate list) is independent of '
@@ -131,7 +131,7 @@ MODEL_LEVEL.update({
            'skips the probability of emitting exactly a given set S of pairs is p^|S| (1-p)^(N-|S|) (HasSum over the preimage, which is characterised exactly), masses sum to 1, mean = pN.',
     'C13': 'Model level (Props/C13Model, C13Termination, C13TerminationFull): every returned level is a partition into non-empty sets, levels are nested, no index / unwrap site can panic; '
            'the local-moving loop terminates (a move strictly improves the potential or lowers the community-id sum; fuel k^k+1), the level loop needs at most n+2 levels, and the whole model never stops for lack of fuel '
-           '(C13_model_terminates); FormulasC13: the gain expressions and the acceptance test regenerated from louvain.rs are the model\'s.',
+           '(C13_model_terminates); C13Monotone: Newman modularity of the returned levels, measured on the input graph, never decreases and the first level is at least as good as the singletons;  FormulasC13: the gain expressions and the acceptance test regenerated from louvain.rs are the model\'s.',
     'C17': 'Props/C17Model: the Louvain visit / sweep / level of the step model are independent of the iteration order of the candidate-community map.',
 })
 MODEL_LEVEL.update({
@@ -148,5 +148,10 @@ MODEL_LEVEL['C07'] = ('Props/C07Model: each of betweenness, closeness, all_pairs
 MODEL_LEVEL['C11'] += (' Props/C11Weighted: weighted model and weighted definition are generic over a scalar record; over the reals the model equals the definition (undirected and directed), '
                        'values in [0,1]; the driver runs the Float instance of the same code.')
 MODEL_LEVEL['C09'] += ' Props/C09Rest: sizes, density, degree centrality and the adjacency-matrix triplets of the model equal the abstract values.'
+MODEL_LEVEL['C20'] += (' Props/C20Breadth*: a no-panic theorem for every model function that models a public function (wf store only; names that exist where there is '
+                        'no error channel), any weights incl. negative / NaN for the shortest-path functions.')
+MODEL_LEVEL['C10'] += ' Props/C10EqualSize: bfs_equal_size_partitions of the model returns k parts that partition the nodes, each of at most n/k+1 members (fuel proved sufficient).'
+MODEL_LEVEL['C16'] += (' Props/C16DistDir: the directed generator is the slot process with diagonal redirect; product law (p per ordinary slot, 1-(1-p)^2 after a diagonal slot) and '
+                        'mean p n(n-1) + p(1-p)(n-1), i.e. a relative excess of at most 1/(n-1).')
 for _k, _v in MODEL_LEVEL.items():
     TEXT[_k]['level'] = TEXT[_k]['level'] + ' ' + _v
